@@ -582,6 +582,17 @@ def job_trace(doc):
     return run_scenario(doc, full_trace=True)
 
 
+def _parse_counts(cj):
+    """Inverse of _counts_json (None if there is nothing to parse)."""
+    if not isinstance(cj, dict):
+        return None
+    counts = {}
+    for key, c in cj.items():
+        oo, ww, ss = key.split("|", 2)
+        counts[(int(oo), None if ww == "-" else int(ww), ss)] = c
+    return counts
+
+
 def _forked(fn):
     """Result of fn() computed in a forked child (None if it fails)."""
     r, w = os.pipe()
@@ -616,11 +627,16 @@ def _forked(fn):
 def job_sweep(doc):
     """Thorough C14: after the twin, run EVERY single-fault position of the swept operation,
     each in its own fork (so that each position is exactly what a replay of it executes)."""
-    S = _new_sim(doc)
-    tw = Phase(doc, S, "twin", True, [])
-    tw.run()
-    counts = dict(S.counts)
-    seams.SIM = None
+    # the observation points are counted in a forked child: the sweeping process itself never runs the
+    # scenario, so every position below starts from the same pristine state as a replay of it
+    def _twin_counts():
+        S = _new_sim(doc)
+        Phase(doc, S, "twin", True, []).run()
+        return _counts_json(S.counts)
+
+    counts = _parse_counts(_forked(_twin_counts))
+    if counts is None:
+        return {"harness_error": "sweep: the twin run failed"}
     sw = doc["sweep"]
     prefix = []
     if sw.get("prefix_plan"):
@@ -631,12 +647,7 @@ def job_sweep(doc):
         if prefix:
             d0 = {k: v for k, v in doc.items() if k not in ("sweep", "fault_plan")}
             d0["faults"] = list(prefix)
-            rc = _forked(lambda: run_scenario(d0).get("run_counts"))
-            if isinstance(rc, dict):
-                counts = {}
-                for key, c in rc.items():
-                    oo, ww, ss = key.split("|", 2)
-                    counts[(int(oo), None if ww == "-" else int(ww), ss)] = c
+            counts = _parse_counts(_forked(lambda: run_scenario(d0).get("run_counts"))) or counts
     o = sw["op"]
     op = doc["ops"][o]
     b = _budget_of(op)
